@@ -1,5 +1,61 @@
--- placeholder, theorems follow
+/-
+  C01 — every symbol decodes back to exactly the content that was given (segment level).
+  Property theorems only; helper lemmas live in Proofs/Roundtrip.lean.
+  `Spec.parseChars` is the reference reader of one segment's characters, `Model.makeSegment` the
+  encoder's bit packing.  (The layers below — placement, masking, interleaving, RS — are C02/C03/C06.)
+-/
 import Spec.Decode
+import Spec.Sizing
+import Model.Encoder
+import Proofs.Roundtrip
+
 namespace Props.C01
-theorem placeholder : True := trivial
+
+/-- MSB-first bit fields read back: `bitsToNat (appendBits v w) = v` for v < 2^w -/
+theorem bits_roundtrip (v w : Nat) (h : v < 2 ^ w) : Spec.bitsToNat (Model.appendBits v w) = v := by
+  exact Proofs.Roundtrip.bits_roundtrip w v h
+
+theorem appendBits_length (v w : Nat) : (Model.appendBits v w).length = w := by
+  exact Proofs.Roundtrip.appendBits_length v w
+
+/-- reading a field of w bits at position |pre| of pre ++ appendBits v w ++ post -/
+theorem takeBits_appendBits (pre post : List Nat) (v w : Nat) (h : v < 2 ^ w) :
+    Spec.takeBits (pre ++ Model.appendBits v w ++ post) pre.length w = some (v, pre.length + w) := by
+  exact Proofs.Roundtrip.takeBits_appendBits pre post v w h
+
+/-- **segment round trip**: for every byte string and every mode in which `make_segment` accepts it,
+    the reference reader applied to the emitted bits (embedded anywhere in a stream) returns exactly
+    the original bytes and stops exactly at the end of the segment.
+    Numeric: groups of 10/7/4 bits; alphanumeric: 11/6 bits; byte: 8; kanji / hanzi: 13 bits with the
+    ISO offset arithmetic — injective only because trail bytes are validated. -/
+theorem segment_roundtrip (data : List Nat) (mode : Option Nat) (enc : String) (s : Model.Segment)
+    (pre post : List Nat) (hd : ∀ b ∈ data, b < 256)
+    (hm : mode ∈ [none, some 1, some 2, some 4, some 8, some 13])
+    (h : Model.makeSegment data mode enc = .ok s) :
+    Spec.parseChars (pre ++ s.bits ++ post) s.mode s.charCount pre.length []
+      = .ok (data, pre.length + s.bits.length) := by
+  exact Proofs.Roundtrip.segment_roundtrip data mode enc s pre post hd hm h
+
+/-- **no counter overflow**: a segment whose bits fit the capacity of (v, level) has a character
+    count that fits its character count indicator, so the count field cannot wrap -/
+theorem count_fits_indicator :
+    Spec.capacityTable.all (fun e => ([1, 2, 4, 8, 13] : List Nat).all (fun m =>
+      match Spec.cciBits m e.1 with
+      | none => true
+      | some w =>
+        -- the smallest count that does NOT fit the indicator needs more bits than the capacity
+        Spec.modeBits e.1 + w + Spec.payloadBits m (2 ^ w) > e.2.2)) = true := by
+  decide +kernel
+
+/-- payload bits are monotone in the character count (so the check above covers all larger counts) -/
+theorem payloadBits_mono (m a b : Nat) (h : a ≤ b) : Spec.payloadBits m a ≤ Spec.payloadBits m b := by
+  exact Proofs.Roundtrip.payloadBits_mono m a b h
+
 end Props.C01
+
+#print axioms Props.C01.bits_roundtrip
+#print axioms Props.C01.appendBits_length
+#print axioms Props.C01.takeBits_appendBits
+#print axioms Props.C01.segment_roundtrip
+#print axioms Props.C01.count_fits_indicator
+#print axioms Props.C01.payloadBits_mono
